@@ -91,3 +91,16 @@ void h_sqs(void) {
   if (r.code == INCOMPLETE) { VASSERT(o.code == INCOMPLETE, "unterminated string is never skipped as Ok"); VWITNESS("incomplete"); }
   VASSERT(o.consumed <= TOT + 1, "bounded");
 }
+
+/* C03: the result depends only on the bytes - the scanner is run twice on the same input (two deserializer objects);
+ * any dependence on uninitialised or leftover state makes the two results differ for some input */
+void h_pqs_twice(void) {
+  uint8_t in[TOT + 1]; mk_input(in); in[TOT] = 0;
+  uint8_t out1[4 * NB + 8], out2[4 * NB + 8]; memset(out1, 0xA5, sizeof out1); memset(out2, 0xA5, sizeof out2); uint32_t l1 = 0, l2 = 0; struct Out o1 = {0}, o2 = {0};
+  w_pqs(in, TOT, 0, out1, sizeof out1, &l1, &o1);
+  w_pqs(in, TOT, 0, out2, sizeof out2, &l2, &o2);
+  VOBS(o1.code); VOBS(l1); VOBSB(out1, sizeof out1);
+  VASSERT(o1.code == o2.code && l1 == l2 && o1.consumed == o2.consumed, "same bytes, same code / length / consumption");
+  for (unsigned i = 0; i < sizeof out1; i++) VASSERT(out1[i] == out2[i], "same bytes, same decoded string (unpaired surrogates included)");
+  if (o1.code == OK) VWITNESS("ok"); else VWITNESS("error");
+}
